@@ -1191,10 +1191,11 @@ def check_signer(ck, fi):
             k_, p_ = _feed_of(marg, data, {})
             (fed if k_ == "whole" else lossy if k_ == "lossy" else unknown).add(p_) if k_ != "unknown" else unknown.append(q.unparse(marg))
         # updates of the local holding the hmac object
-        hname = None
-        for x in ast.walk(r.ast.value):
-            if isinstance(x, ast.Call) and isinstance(x.func, ast.Attribute) and x.func.attr in ("hexdigest", "digest") and isinstance(x.func.value, ast.Name):
-                hname = x.func.value.id
+        # the local(s) holding the hmac object: found through the definitions, not through the shape of the return
+        hnames = {d.path for d in cx.rd.defs if d.kind == "assign" and isinstance(d.value, ast.Call) and q.dotted(d.value.func) in ("hmac.new", "hmac.HMAC") and "." not in d.path}
+        if len(hnames) > 1:
+            raise AnalysisError("%s: more than one hmac object" % fi.qualname)
+        hname = next(iter(hnames), None)
         if hname is not None:
             pm = q.parent_map(fi.node)
             dom = fi.cfg.dominators()
@@ -1214,7 +1215,16 @@ def check_signer(ck, fi):
                 elif ctl or n.id not in dom[r.id]:
                     unknown.append("conditional " + q.unparse(c))
                     continue
-                k_, p_ = _feed_of(c.args[0], data, loopvars)
+                fed_expr = c.args[0]
+                for _k in range(3):  # an explaining local between the data and the update
+                    inner = _peel_bytes(fed_expr)
+                    if not isinstance(inner, ast.Name) or inner.id in data or inner.id in loopvars:
+                        break
+                    dd = cx.rd.unique(n, inner.id)
+                    if dd is None or dd.kind != "assign" or dd.value is None:
+                        break
+                    fed_expr = dd.value
+                k_, p_ = _feed_of(fed_expr, data, loopvars)
                 if k_ == "whole":
                     fed.add(p_)
                 elif k_ == "lossy":
